@@ -3,7 +3,7 @@
     harness/props/c10.py). *)
 From Coq Require Import NArith Arith List Bool.
 Import ListNotations.
-From NV Require Import Machine.Dfa Machine.Sem Machine.Chunk Machine.FailPos Machine.Bisim Machine.BBisim Machine.Drive.
+From NV Require Import Machine.Dfa Machine.Sem Machine.Chunk Machine.FailPos Machine.Bisim Machine.BBisim Machine.Drive Machine.CallEquiv Machine.FailSticky.
 
 (** OK is returned only after the whole chunk has been consumed, for every machine carrying the
     certificate [no_stuck_ok] (computed per compiled machine) *)
@@ -29,6 +29,17 @@ Theorem c10_fail_absorbing_end : forall D exec evalt d q x, is_fail_state d q ->
   end_call D exec evalt d q x = Some {| f_res := RFail; f_q := q; f_x := x; f_consumed := 0; f_evs := [] |}.
 Proof. exact fail_absorbing_end. Qed.
 Print Assumptions c10_fail_absorbing_end.
+
+(** once FAIL has been returned every later feed or end call returns FAIL: for every machine carrying the certificate
+    [fail_sticky_ok] (computed per compiled machine: every FAIL leaf records the fail state), whatever call returned FAIL -
+    feed on any chunk, or end() - every later call, feed on any non-empty chunk or end(), returns FAIL from the same
+    state with the same data, consuming nothing and running nothing *)
+Theorem c10_fail_is_for_ever : forall D exec evalt d, fail_sticky_ok d = true ->
+  forall c q x r, call_bytes' c -> do_call D exec evalt d c q x = Some r -> f_res D r = RFail ->
+  forall later, Forall call_nonempty later ->
+  Forall (fun c' => do_call D exec evalt d c' (f_q D r) (f_x D r) = Some (failed D (f_q D r) (f_x D r))) later.
+Proof. exact fail_is_for_ever. Qed.
+Print Assumptions c10_fail_is_for_ever.
 
 (** FAIL is reported at the first offending byte: for every machine carrying the certificate [fail_entry_ok]
     (computed per compiled machine), a feed call that starts in a state that has not failed
